@@ -5,11 +5,18 @@ package tblcheck
 
 import (
 	"bytes"
+	"context"
 	"fmt"
+	"time"
 
+	"github.com/go-logr/logr"
+	"github.com/wrgl/wrgl/pkg/conf"
+	"github.com/wrgl/wrgl/pkg/doctor"
 	"github.com/wrgl/wrgl/pkg/objects"
+	"github.com/wrgl/wrgl/pkg/ref"
 
 	"verifharness/internal/model"
+	"verifharness/internal/stores"
 )
 
 // Read returns the table object and all its rows, block by block.
@@ -132,4 +139,36 @@ func Validate(db objects.Store, sum []byte) ([][]string, error) {
 		}
 	}
 	return rows, nil
+}
+
+// Diagnose runs wrgl's own doctor over a scratch ref pointing at a commit of the table and
+// returns the issues it reports.
+func Diagnose(db objects.Store, sum []byte) ([]string, error) {
+	rs, _, closeFn, err := stores.NewRefStore()
+	if err != nil {
+		return nil, fmt.Errorf("HARNESS: ref store: %v", err)
+	}
+	defer closeFn()
+	com, err := stores.SaveCommit(db, sum, nil, time.Unix(1700000000, 0), "c")
+	if err != nil {
+		return nil, fmt.Errorf("HARNESS: save commit: %v", err)
+	}
+	if err := ref.CommitHead(rs, "main", com, &objects.Commit{AuthorName: "v", AuthorEmail: "v@x", Message: "c"}, nil); err != nil {
+		return nil, fmt.Errorf("HARNESS: save head: %v", err)
+	}
+	d := doctor.NewDoctor(db, rs, conf.User{Name: "v", Email: "v@x"}, logr.Discard())
+	ch, errCh, err := d.Diagnose(context.Background(), nil, nil, nil)
+	if err != nil {
+		return nil, fmt.Errorf("doctor.Diagnose: %v", err)
+	}
+	var out []string
+	for ri := range ch {
+		for _, iss := range ri.Issues {
+			out = append(out, fmt.Sprintf("%s: %s (%s)", ri.Ref, iss.Err, iss.Resolution))
+		}
+	}
+	if err, ok := <-errCh; ok && err != nil {
+		return out, fmt.Errorf("doctor.Diagnose: %v", err)
+	}
+	return out, nil
 }
